@@ -117,6 +117,12 @@ def run(prop, tier, seed, known):
             r = np.array([rng.randint(48, 84) + rng.choice([0, 0.25, 0.5]) for _ in range(rng.randint(0, 4))])
             e = np.array([rng.randint(48, 84) + rng.choice([0, 0.25, 0.5]) for _ in range(rng.randint(0, 4))])
             w = rng.choice([0.25, 0.5, 1.0])
+            if rng.random() < 0.2:
+                # a pair a few 1e-7 semitones inside / outside the window (ten million times the double-precision rounding error), with chroma
+                # values on either side of a power of two
+                base_ = rng.choice([67.625, 63.9, 55.75, 71.99, 49.6, 60.0]) + rng.random() * 1e-6
+                r = np.array([base_])
+                e = np.array([base_ + rng.choice([1, -1]) * (w + rng.choice([-1e-7, -2e-7, -4e-7, 2e-7, 4e-7])) + rng.choice([0, 12, -12])])
             d = lambda i, j: min(abs(r[i] % 12 - e[j] % 12), 12 - abs(r[i] % 12 - e[j] % 12)) <= w
             m = util.match_events(r, e, w, distance=util._outer_distance_mod_n)
             n += 1
